@@ -34,7 +34,7 @@ STRK = '{"page", "figure", "image", "char"}'
 # (label, Kinds, MaxNodes, Strings)
 CONFIGS = {
     "quick": [("shapes-all", "AllKinds", 4, "Palette2"), ("shapes-text", TEXTK, 6, "Palette1"),
-              ("shapes-figure", FIGK, 4, "Palette2"), ("strings", STRK, 3, "Str2")],
+              ("shapes-figure", FIGK, 4, "Palette1"), ("strings", STRK, 3, "Str2")],
     "thorough": [("shapes-all", "AllKinds", 5, "Palette3"), ("shapes-text", TEXTK, 7, "Palette2"),
                  ("shapes-figure", FIGK, 5, "Palette3"), ("strings", STRK, 3, "Str3"), ("shapes-all6", "AllKinds", 6, "Palette1")],
 }
@@ -56,6 +56,14 @@ def encodable(s, codec):
         return False
 
 
+def control_in_text(xml):
+    """strip_control promises character data free of C0 controls (attribute values are outside its documented reach)"""
+    lexed = lex_xml(xml)
+    if lexed[2] is not None:
+        return False
+    return any(c in (C.CTRL, C.FF) for e in lexed[1] if e["e"] == "chars" for c in e["v"])
+
+
 # ------------------------------------------------------------------------------------------------ verdicts on one real run
 class Judge:
     """evaluates the C11 predicates on real outputs and classifies differences (intended / named deviation / other)"""
@@ -70,7 +78,7 @@ class Judge:
         hit = [d for d, v in variants.items() if v == real]
         return hit
 
-    def text_sink(self, conv, real, ideal, coded_of, events_of, rp, what):
+    def text_sink(self, conv, real, ideal, coded_of, events_of, rp, what, strip=False):
         """real: what the text sink holds.  ideal: intended model output.  coded_of(devset) -> model output.
         events_of() -> expected SAX events (xml).  Returns True when the property holds on `real`."""
         ck = self.ck
@@ -90,6 +98,10 @@ class Judge:
         if err:
             ck.violation("xml:malformed", "xml output of %s is not well-formed (%s)" % (what, err), dict(rp, observed=real[:3000]))
             return False
+        if strip and control_in_text(real):
+            ck.violation("xml:control-in-text", "xml output of %s with strip_control still carries a C0 control in character data"
+                         % what, dict(rp, observed=real[:3000]))
+            return False
         want = C.norm_events(events_of())
         if evs != want:
             k = next((q for q in range(min(len(evs), len(want))) if evs[q] != want[q]), min(len(evs), len(want)))
@@ -102,11 +114,13 @@ class Judge:
             ck.note("drift: %s output of %s differs from the model but satisfies the property's predicates" % (conv, what))
         return True
 
-    def xml_predicates(self, real, events_of, rp, what):
+    def xml_predicates(self, real, events_of, rp, what, strip=False):
         """well-formedness and parse-back evaluated directly (also when the output equals the model's)"""
         evs, err = C.expat_events(real)
         if err:
             return "malformed: " + err
+        if strip and control_in_text(real):
+            return "control-in-text"
         want = C.norm_events(events_of())
         if evs != want:
             return "parse-back"
@@ -178,9 +192,9 @@ def replay_tree(ck, judge, T, conv, strip, imgw, rep, label, sample=False):
         return
     ideal = con.text(C.model_chars(T, conv, strip, imgw, set()))
     ok = judge.text_sink(conv, real_s, ideal, lambda d: con.text(C.model_chars(T, conv, strip, imgw, d)),
-                         lambda: C.real_tree_events(Tp, objs, strip, imgw), rp, what)
+                         lambda: C.real_tree_events(Tp, objs, strip, imgw), rp, what, strip=strip)
     if conv == "xml" and ok:
-        bad = judge.xml_predicates(real_s, lambda: C.real_tree_events(Tp, objs, strip, imgw), rp, what)
+        bad = judge.xml_predicates(real_s, lambda: C.real_tree_events(Tp, objs, strip, imgw), rp, what, strip=strip)
         if bad:
             ck.violation("xml:" + bad.split(":")[0], "xml output of %s equals the intended model's but fails %s" % (what, bad), rp)
     nbin = 0
@@ -243,8 +257,9 @@ def direction_a_model(ck, dev, judge):
 
 def teeth(ck):
     """each named deviation, switched on alone, makes TLC report a violation of the predicate it is said to break"""
-    pairs = [("FigureNameRaw", "P_XMLWellFormed"), ("TextSinkUtf8", "P_SinkIndependent"), ("BomPerWrite", "P_SinkIndependent"),
-             ("BomPerWrite", "P_XMLWellFormed")]
+    pairs = [("FigureNameRaw", "P_XMLWellFormed"), ("TextSinkUtf8", "P_SinkIndependent"), ("BomPerWrite", "P_XMLWellFormed")]
+    if ck.tier == "thorough":
+        pairs += [("BomPerWrite", "P_SinkIndependent"), ("FigureNameRaw", "P_XMLParsesBackToTree")]
     found = {}
     for d, inv in pairs:
         mod = "Teeth_%s_%s" % (d, inv)
@@ -316,9 +331,9 @@ def judge_document(ck, judge, data, lakey, what, rp0, convs=("text", "xml"), sin
             else:
                 ideal = txt.text(C.model_chars(Tm, "xml", strip, False, set()))
             ok = judge.text_sink(conv, real_s, ideal, lambda d: txt.text(C.model_chars(Tm, conv, strip, False, d)),
-                                 lambda: C.real_tree_events(Tp, objs, strip, False), rp, what)
+                                 lambda: C.real_tree_events(Tp, objs, strip, False), rp, what, strip=strip)
             if conv == "xml" and ok:
-                bad = judge.xml_predicates(real_s, lambda: C.real_tree_events(Tp, objs, strip, False), rp, what)
+                bad = judge.xml_predicates(real_s, lambda: C.real_tree_events(Tp, objs, strip, False), rp, what, strip=strip)
                 if bad:
                     ck.violation("xml:" + bad.split(":")[0], "xml output of %s equals the intended model's but fails %s" % (what, bad), rp)
             if not sinks:
@@ -349,9 +364,9 @@ def direction_a_pdf(ck, dev, judge):
         part = strings[i:i + chunk]
         data = C.hostile_doc(part)
         docs += 1
-        for lk in (lakeys if ck.tier == "thorough" else [lakeys[(i // chunk) % len(lakeys)], "all_texts"]):
+        for lk in lakeys:
             n, Tp = judge_document(ck, judge, data, lk, "generated document with hostile strings %r.." % (part[0],),
-                                   {"strings": part, "pdf": data}, sinks=(ck.tier == "thorough" or (i // chunk) % 2 == 0))
+                                   {"strings": part, "pdf": data})
             # realiser self-check: every hostile string arrived as glyph text, font name and figure name
             got = {(x["k"], x["s"]) for x in Tp} | {("font", x["f"]) for x in Tp if x["k"] == "char"}
             for S in part:
@@ -580,7 +595,7 @@ def direction_b(ck, dev, judge):
     rng = random.Random(ck.seed)
     files = sorted(glob.glob("/repo/samples/**/*.pdf", recursive=True))
     files = [f for f in files if "encryption" not in f and os.path.getsize(f) < 3_000_000]
-    pick = files if ck.tier == "thorough" else rng.sample(files, min(14, len(files)))
+    pick = files if ck.tier == "thorough" else rng.sample(files, min(10, len(files)))
     maxpages = 2 if ck.tier == "quick" else 4
     traces = []
     skipped = 0
@@ -608,7 +623,7 @@ def direction_b(ck, dev, judge):
                 con = C.Concrete(0, nums=C.RealConcrete(objs).nums)
                 ideal = con.text(C.model_chars(Tm, "xml", strip, False, set()))
                 judge.text_sink("xml", out, ideal, lambda d: con.text(C.model_chars(Tm, "xml", strip, False, d)),
-                                lambda: C.real_tree_events(Tp, objs, strip, False), rp, origin)
+                                lambda: C.real_tree_events(Tp, objs, strip, False), rp, origin, strip=strip)
             tr, err = make_trace(conv, strip, pages, out, "%s [%s, %s]" % (origin, conv, lakey))
             if err:
                 ck.violation("xml:malformed", "xml output of %s cannot be lexed: %s" % (origin, err), rp)
@@ -634,6 +649,18 @@ def direction_b(ck, dev, judge):
         if res.ok or res.violated != "deadlock":
             raise MachineryError("vacuous trace validation: a corrupted recording was accepted")
         ck.extra["corrupted_trace_rejected"] = True
+    badx = json.loads(json.dumps(min((t for t in traces if t["conv"] == "xml" and len(t["out"]) > 6), key=lambda t: len(t["out"]), default=None)))
+    if badx:
+        k = next(q for q, e in enumerate(badx["out"]) if e["e"] == "open" and e["n"] != C.E_PAGES and q > 2)
+        badx["out"][k]["at"] = badx["out"][k]["at"][:-1] + [987654]          # one number rendering altered
+        tf = os.path.join(ck.tmp, "c11_badx.json")
+        with open(tf, "w") as f:
+            json.dump([badx], f)
+        cfg = write_cfg(os.path.join(ck.tmp, "c11_badx.cfg"), constants={"Dev": tla_set(dev) if dev else "{}"}, spec="Spec", deadlock=True)
+        res = run_tlc(TRACE_SPEC, cfg, workers=1, env={"TRACE_FILE": tf}, timeout=600)
+        if res.ok or res.violated != "deadlock":
+            raise MachineryError("vacuous trace validation: a corrupted xml recording was accepted")
+        ck.extra["corrupted_xml_trace_rejected"] = True
 
 
 def run(ck):
@@ -654,10 +681,15 @@ def run(ck):
                       "with strip_control the character data itself must be free of them",
                       "CR and TAB/LF inside attribute values are compared after XML's own line-end and attribute-value normalisation",
                       "a codec 'able to represent' the output = str.encode(codec) succeeds on it"]
-    teeth(ck)
-    direction_a_model(ck, dev, judge)
-    direction_a_pdf(ck, dev, judge)
-    direction_b(ck, dev, judge)
+    import time
+    t0 = time.time()
+    phases = {}
+    for name, fn in (("teeth", lambda: teeth(ck)), ("model_replay", lambda: direction_a_model(ck, dev, judge)),
+                     ("generated_pdfs", lambda: direction_a_pdf(ck, dev, judge)), ("sample_traces", lambda: direction_b(ck, dev, judge))):
+        fn()
+        phases[name] = round(time.time() - t0, 1)
+        t0 = time.time()
+    ck.extra["phase_wall_s"] = phases
     ck.extra["model_code_drift"] = judge.drift
     ck.exhaustive = True
 
